@@ -94,8 +94,30 @@ ds_late.set_cache(__import__("labrea").cache.NoCache())
 ds_late.disable_effects()
 ds_late.enable_effects()
 
+
+
+def body_dep(a=Option("A", 0)):
+    return ("dep", a)
+
+
+def body_total(x=None, c=Option("C", 0)):
+    return ("total", x, c)
+
+
+# a dependency named as a parameter default of another dataset; the C20 check registers an overload on it at RUN time
+# (not at import), so that state exists only in the pickled object, never in a freshly imported module
+ds_dep = dataset(body_dep, dispatch="D")
+ds_total = dataset(body_total, defaults={"x": ds_dep})
+
+
+def total_sig(x=ds_dep, c=Option("C", 0)):
+    return ("total_sig", x, c)
+
+
+ds_total_sig = dataset(total_sig)
+
 DISPATCH_KEY = {"ds_ns": "NS.A"}  # (others dispatch on D)
-GRAPHS = {"ds_quiet": ds_quiet, "ds_late": ds_late, "ds_ns": ds_ns, "ns": NS, "typed": typed, "ds_a": ds_a, "ds_c": ds_c, "ds_main": ds_main, "ds_abstract": ds_abstract, "ds_derived": ds_derived, "expr_root": expr_root}
+GRAPHS = {"ds_total": ds_total, "ds_total_sig": ds_total_sig, "ds_quiet": ds_quiet, "ds_late": ds_late, "ds_ns": ds_ns, "ns": NS, "typed": typed, "ds_a": ds_a, "ds_c": ds_c, "ds_main": ds_main, "ds_abstract": ds_abstract, "ds_derived": ds_derived, "expr_root": expr_root}
 
 
 # decorator form (recorded finding: the name of the function now refers to the Dataset)
